@@ -296,6 +296,8 @@ def gen_configs(chk, reg):
                     kw = dict(kw0, **var)
                     inv = rtb_inversion_for(kw, "x") if not predicted_reject(cls, kw) else None
                     tests = ("lower", "upper", False, "detect") if inv else (None,)
+                    if quick and inv and var:
+                        tests = ("lower", "upper", False) if var == {"boundary_inversion": True} else (("lower", "detect") if "detect_edges" in var else ("upper", False))
                     bsets = BOUNDS if (not var or (not quick and name == "default")) else [BOUNDS[rng.randrange(3)] if not quick else BOUNDS[1]]
                     if quick and not var:
                         if name in ("default", "logit"):
@@ -303,7 +305,7 @@ def gen_configs(chk, reg):
                         elif name == "inversion":
                             bsets = BOUNDS[:2] + [BOUNDS[3]]
                         elif name in ("offset", "log-rescale", "inversion-duplicate", "time", "mass_ratio"):
-                            bsets = BOUNDS[:2] + [BOUNDS[2 + rng.randrange(3)]]
+                            bsets = [BOUNDS[1], BOUNDS[[0, 2, 3, 4][rng.randrange(4)]]]
                         else:
                             bsets = [BOUNDS[rng.randrange(len(BOUNDS))]]
                     for b in bsets:
@@ -312,7 +314,8 @@ def gen_configs(chk, reg):
                     for var in RTB_REJECT:
                         add(one_param_configs(rname, var, BOUNDS[1], chk, gw=gw, with_update=False), cls, dict(kw0, **var))
                     for pre, b in (("log", (1e-3, 250.0)), ("exp", (-3.7, 2.9)), ("logit", (0.1, 0.9))):
-                        for var in ({}, {"offset": True}, {"boundary_inversion": True}, {"post_rescaling": "logit", "update_bounds": False}):
+                        for var in (({}, {"boundary_inversion": True}, {"post_rescaling": "logit", "update_bounds": False}) if quick else
+                                    ({}, {"offset": True}, {"boundary_inversion": True}, {"post_rescaling": "logit", "update_bounds": False})):
                             v = dict(var, pre_rescaling=pre)
                             kw = dict(kw0, **v)
                             tests = ("lower", "upper", False) if rtb_inversion_for(kw, "x") else (None,)
@@ -1298,7 +1301,7 @@ def decide(chk, cfgs, res):
             if 1 in verdict and 0 not in verdict:
                 chk.nontriv((c["label"], j))
     wit = getattr(run_coq_batches, "witnesses", {})
-    reported = 0
+    per_key = {}
     item_by_idx = {it[0]: it for it in items}
     for idx, (wf, wb) in sorted(wit.items(), key=lambda kv: str(kv[0])):
         if not isinstance(idx, int) or idx not in rowmap:
@@ -1310,10 +1313,11 @@ def decide(chk, cfgs, res):
             ja, jb = rowmap[idx][w[0]], rowmap[idx][w[1]]
             ia, ib = ja % r["n_in"], jb % r["n_in"]
             vals = (r["lj"][ja], r["lj"][jb]) if direction == "forward" else (r["ljb"][ja], r["ljb"][jb])
-            encl = ""
-            if reported < 3:
-                encl = witness_enclosures(chk, item_by_idx[idx], w)
-            reported += 1
+            kkey = (c.get("cls"), direction)
+            per_key[kkey] = per_key.get(kkey, 0) + 1
+            if per_key[kkey] > 2:
+                continue          # further witnesses of the same kind are only counted
+            encl = witness_enclosures(chk, item_by_idx[idx], w)
             chk.fail(f"C07:{c.get('cls', '?')}:jacobian-offset-not-constant:{direction}",
                      f"{c['label']}: the reported {direction} log_j minus the true log|det J| (proven enclosure of the model's "
                      f"log-Jacobian, which is the true one up to a point-independent constant) is not one constant: "
@@ -1322,6 +1326,8 @@ def decide(chk, cfgs, res):
                      {"config": {k: v for k, v in c.items() if not k.startswith('_') and k not in ("neighbours", "outside")},
                       "kind": "jacobian", "direction": direction, "rows": [ia, ib], "reported": list(vals),
                       "enclosures(forward, inverse) at the two points": encl, "point_index": ia})
+    for kkey, cnt in per_key.items():
+        chk.count(f"jacobian-offset witnesses:{kkey[0]}:{kkey[1]}", cnt)
     for k in range(4):
         detail = ""
         if bad[k]:
@@ -1349,14 +1355,20 @@ def witness_enclosures(chk, item, w):
     txt = COQ_HDR + f"Eval vm_compute in (map (lj_enclosures {blocks}) [{obs[w[0]]}; {obs[w[1]]}]).\n"
     ok, evals, err = chk.coq_run(f"witness_{idx}", txt, timeout=300)
     if not ok or not evals:
+        chk.notes.append(f"witness enclosures for case {idx} not obtained: {err[-300:]}")
+        print(f"witness enclosures for case {idx} not obtained: {err[-300:]}", file=sys.stderr)
         return ""
+    return "enclosures (forward, inverse) at the two points: " + pretty_encl(evals[0])
+
+
+def pretty_encl(text):
     import re
+
     def dec(m):
-        num, den = int(m.group(1)), int(m.group(2))
-        return repr(num / den)
-    t = re.sub(r"\{\|\s*QArith_base\.Qnum := \(?(-?\d+)\)?;\s*QArith_base\.Qden := (\d+)\s*\|\}", dec, evals[0])
+        return repr(int(m.group(1)) / int(m.group(2)))
+    t = re.sub(r"\{\|\s*QArith_base\.Qnum := \(?(-?\d+)\)?;\s*QArith_base\.Qden := (\d+)\s*\|\}", dec, text)
     t = t.replace("Interval.BDecimal", "").replace("Interval.BInteger", "").replace("Some", "")
-    return "enclosures: " + " ".join(t.split())[:600]
+    return " ".join(t.split())[:700]
 
 
 def outside_fold(c, r, p, row):
@@ -1456,6 +1468,62 @@ def search_on_break(chk, c, r, i, k):
         chk.notes.append(f"search_on_break failed: {e}")
 
 
+def replay_jacobian(c, rp):
+    """Re-run the real code on the configuration and let Coq decide again whether the offsets
+    'reported log_j - enclosure of the true log|det J|' at the two recorded points are separated."""
+    import tempfile
+    import c07_registry
+    reg = c07_registry.registry()
+    c["_registry"] = reg["default_reparameterisations"]
+    c["_registry_gw"] = dict(reg["default_gw"], **reg["default_reparameterisations"])
+    try:
+        c["_aliases"] = c07_registry.gw_aliases()
+    except Exception:
+        c["_aliases"] = {}
+    send = {k: v for k, v in c.items() if not k.startswith("_")}
+    r = subprocess.run([common.PY, os.path.join(common.VERIF, "harness", "c07_child.py")], input=json.dumps([send]),
+                       capture_output=True, text=True, env=common.child_env())
+    res = json.loads(r.stdout)[0]
+    if res.get("error"):
+        print(json.dumps({"label": c.get("label"), "error": res["error"], "msg": res.get("msg", "")[-300:]}, indent=1))
+        print(f"VIOLATION property={PID} replay=(replayed) configuration raised {res['error']}")
+        return 1
+    terms, specs = block_terms(c, res)
+    obs, rowids = observations(c, res, specs)
+    pick = []
+    for i in rp["rows"]:
+        ks = [k for k, j in enumerate(rowids) if j % res["n_in"] == i]
+        if not ks:
+            print(f"row {i} is not part of the correspondence any more")
+            return 0
+        pick.append(ks[0])
+    txt = (COQ_HDR + f"Definition blocks := {cL(terms)}.\n"
+           f"Eval vm_compute in (check_case2 (blocks, [{obs[pick[0]]}; {obs[pick[1]]}])).\n"
+           f"Eval vm_compute in (map (lj_enclosures blocks) [{obs[pick[0]]}; {obs[pick[1]]}]).\n")
+    with tempfile.TemporaryDirectory() as d:
+        path = os.path.join(d, "replay_jacobian.v")
+        open(path, "w").write(txt)
+        q = subprocess.run(["timeout", "600", "coqc", "-Q", common.COQ, "NessaiV", "-w", "-notation-overridden,-ambiguous-paths", path],
+                           capture_output=True, text=True, cwd=d)
+    evals = common.parse_evals(q.stdout)
+    if q.returncode != 0 or len(evals) != 2:
+        print("coqc failed: " + (q.stderr or q.stdout)[-500:])
+        return 2
+    v = parse_ll(evals[0])
+    wf, wb = v[-2], v[-1]
+    j0, j1 = rowids[pick[0]], rowids[pick[1]]
+    print(json.dumps({"label": c.get("label"), "points": [c["points"][i] for i in rp["rows"]],
+                      "reported forward log_j": [res["lj"][j0], res["lj"][j1]],
+                      "reported inverse log_j": [res["ljb"][j0], res["ljb"][j1]],
+                      "verdicts (x', log_j, x_back, log_j_inv; 0 = outside the enclosure)": v[:-2],
+                      "separated offsets forward / inverse": [wf, wb],
+                      "enclosures of the true log|det J| (forward, inverse) at the two points": pretty_encl(evals[1])}, indent=1))
+    if wf or wb:
+        print(f"VIOLATION property={PID} replay=(replayed) reported log_j minus the true log|det J| is not one constant over the two points")
+        return 1
+    return 0
+
+
 def replay(data):
     rp = data["replay"]
     if "function" in rp:
@@ -1475,6 +1543,8 @@ def replay(data):
                        capture_output=True, text=True, env=common.child_env())
     res = json.loads(r.stdout)[0]
     if rp.get("kind") == "jacobian":
+        return replay_jacobian(dict(c), rp)
+    if rp.get("kind") == "jacobian-fd":
         c = dict(c)
         c["fd_rows"] = list(rp["rows"])
         r = subprocess.run([common.PY, os.path.join(common.VERIF, "harness", "c07_child.py")], input=json.dumps([c]),
